@@ -221,8 +221,7 @@ theorem C07_written (cfg : Cfg) (n : Name) (as : List Attr) (rs1 : RS) (prog : P
   · cases h
   · cases h
   · split at h <;> cases h
-  · cases h
-  · cases h
+  all_goals cases h
 
 /-! ### several requests in one session -/
 
@@ -383,13 +382,96 @@ stream error), after writing anything: the session adds nothing — no automatic
 requests and not for replies — keeps what the handler wrote, and ends with that error (a
 stream error is returned as such, everything else as the handler's error) -/
 theorem C07_handler_error (cfg : Cfg) (n : Name) (as : List Attr) (rs1 : RS) (prog : Prog)
-    (h : prog.ret = .fail ∨ prog.ret = .eof ∨ prog.ret = .stanzaErr ∨ prog.ret = .streamErr) :
+    (h : prog.ret ≠ .ok ∧ prog.ret ≠ .readErr) :
     ∃ inv e, handleElem cfg n as rs1 prog = .stop (some inv) (writesOf prog.ops) (.error e) ∧
-      (prog.ret = .streamErr → e = .streamError "policy-violation") ∧
-      (prog.ret ≠ .streamErr → e = .handler) := by
+      ((prog.ret = .streamErr ∨ prog.ret = .wrapStream) → e = .streamError "policy-violation") ∧
+      ((prog.ret ≠ .streamErr ∧ prog.ret ≠ .wrapStream) → e = .handler) := by
   unfold handleElem
   simp only [runOps_ws]
-  rcases h with h | h | h | h <;> simp [h, encAll_out, WS.init]
+  cases hr : prog.ret <;> simp_all [encAll_out, WS.init]
+
+/-- whatever a handler returns — nil, `io.EOF` itself, an error that wraps or joins `io.EOF`
+or `io.ErrUnexpectedEOF`, a (wrapped) stanza or stream error — and whatever it read or wrote,
+the step never ends the session *cleanly* -/
+theorem C07_handler_never_ends_cleanly (cfg : Cfg) (n : Name) (as : List Attr) (rs1 : RS) (prog : Prog)
+    (inv : Option Inv) (w : List Tok) : handleElem cfg n as rs1 prog ≠ .stop inv w .clean :=
+  handleElem_never_clean cfg n as rs1 prog inv w
+
+theorem verdict_eof {d d' : Nat} {t : Tok} {rest : List Tok}
+    (h : verdict d t rest = (d', Rd.eof)) : t = .stop ⟨nsStream, "stream"⟩ := by
+  cases t with
+  | chars s =>
+    simp only [verdict, Prod.mk.injEq] at h
+    obtain ⟨_, h⟩ := h
+    split at h <;> cases h
+  | start n as =>
+    simp only [verdict, Prod.mk.injEq] at h
+    obtain ⟨_, h⟩ := h
+    repeat' split at h
+    all_goals cases h
+  | stop n =>
+    simp only [verdict, Prod.mk.injEq] at h
+    obtain ⟨_, h⟩ := h
+    by_cases h1 : (n.space != nsStream) = true
+    · rw [if_pos h1] at h; cases h
+    · rw [if_neg h1] at h
+      by_cases h2 : (n.loc == "stream") = true
+      · simp only [bne_iff_ne, ne_eq, Decidable.not_not] at h1
+        simp only [beq_iff_eq] at h2
+        cases n; simp_all
+      · rw [if_neg h2] at h; cases h
+  | comment s => simp [verdict] at h
+  | procInst a b => simp [verdict] at h
+  | directive s => simp [verdict] at h
+
+theorem next_eof_is_close (s : RS) (hs : s.sticky = none) {s' : RS} (h : s.next = (.eof, s')) :
+    ∃ rest, s.inp = .stop ⟨nsStream, "stream"⟩ :: rest := by
+  unfold RS.next at h
+  simp only [hs] at h
+  cases hi : s.inp with
+  | nil => simp [hi] at h
+  | cons a rest =>
+    simp only [hi] at h
+    generalize hv : verdict s.dIn a rest = v at h
+    obtain ⟨dIn', r1⟩ := v
+    cases r1 with
+    | tok t1 =>
+      simp only at h
+      generalize hv2 : verdict s.dOut t1 rest = v2 at h
+      obtain ⟨dOut', r2⟩ := v2
+      cases r2 with
+      | tok t2 => simp at h
+      | err e => simp at h
+      | eof =>
+        have h1 := verdict_tok hv
+        have h2 := verdict_eof hv2
+        exact ⟨rest, by rw [← h1.1, h2]⟩
+    | err e => simp at h
+    | eof => exact ⟨rest, by rw [verdict_eof hv]⟩
+
+/-- **Serve returns nil only on the peer's closing tag**: a step ends the session without
+error only when the very next token of the input is `</stream:stream>`; no handler has run in
+that step and nothing was written — never because of a handler's return value -/
+theorem C07_nil_only_on_peer_close (cfg : Cfg) (rs : RS) (prog : Prog) (inv : Option Inv) (w : List Tok)
+    (h : handleInputStream cfg rs prog = .stop inv w .clean) :
+    inv = none ∧ w = [] ∧ ∃ rest, rs.inp = .stop ⟨nsStream, "stream"⟩ :: rest := by
+  unfold handleInputStream at h
+  generalize hn : ({ rs with dOut := 0, sticky := none } : RS).next = r at h
+  obtain ⟨rd, rs1⟩ := r
+  cases rd with
+  | err e => simp at h
+  | tok t =>
+    cases t with
+    | start n as => exact absurd h (C07_handler_never_ends_cleanly cfg n as rs1 prog inv w)
+    | chars s => simp at h
+    | stop n => simp at h
+    | comment s => simp at h
+    | procInst a b => simp at h
+    | directive s => simp at h
+  | eof =>
+    simp at h
+    refine ⟨h.1.symm, h.2, ?_⟩
+    exact next_eof_is_close ({ rs with dOut := 0, sticky := none } : RS) rfl hn
 
 /-! ### with the multiplexer in front -/
 
